@@ -374,6 +374,7 @@ package scanner
 //@   pure
 //@   requires lex.file != nil && lex.begin <= lex.end + 1 && lex.end < len(lex.file.content)
 //@   ensures len(ret) == lex.end + 1 - lex.begin
+//@   ghostensures same(ret, lexv(lex.file.content, lex.begin, lex.end))
 //@ func (Lexeme).Begin
 //@   inline
 //@ func (Lexeme).End
@@ -514,3 +515,42 @@ package scanner
 //@   tag C17
 //@   ensures [C17] c == 92 || c == 34 ==> ret == nil && s.step == stateParameterInQuoted && s.finds == old(s.finds)
 //@   ensures [C17] c != 92 && c != 34 ==> ret != nil && ret.index == old(s.curIndex)
+
+// ---------------------------------------------------------------- look-ahead on the parameters of the current directive
+// (C17 "a value that needs no quotes means the same with or without them", C05 quoting): the parameter is classified
+// through its UNQUOTED value, brackets trimmed after unquoting. lexv is the lexeme text as a function of the file
+// content and the bounds; unq/tsb/isUTN/beq are the library's byte-string functions (uninterpreted, deps.spec).
+//@ specfn lexv(content []byte, begin int, end int) []byte
+//@ pred ParamsWF(s *Scanner) = s != nil && (forall k :: 0 <= k && k < len(s.lastDirectiveParameters) ==> LexemeWF(s.lastDirectiveParameters[k]))
+
+//@ func (*Scanner).isDirectiveParameterHasRegexNotation
+//@   tag C17 C05 C01
+//@   requires ParamsWF(s)
+//@   modifies nothing
+//@   ensures [C17] ret <==> (exists k :: 0 <= k && k < len(s.lastDirectiveParameters) && beq(unq(lexv(s.lastDirectiveParameters[k].file.content, s.lastDirectiveParameters[k].begin, s.lastDirectiveParameters[k].end)), regexType))
+//@   loop 1 invariant 0 - 1 <= rangeindex && rangeindex <= rangelen - 1 && rangelen == len(s.lastDirectiveParameters)
+//@   loop 1 invariant forall k :: 0 <= k && k <= rangeindex && k < rangelen ==> !beq(unq(lexv(s.lastDirectiveParameters[k].file.content, s.lastDirectiveParameters[k].begin, s.lastDirectiveParameters[k].end)), regexType)
+//@   loop 1 decreases rangelen - rangeindex
+//@   loop 1 frame nothing
+
+//@ func (*Scanner).isDirectiveParameterHasTypeOrAnyOrEmpty
+//@   tag C17 C05 C01
+//@   requires ParamsWF(s)
+//@   modifies nothing
+//@   ensures [C17] ret <==> (exists k :: 0 <= k && k < len(s.lastDirectiveParameters) && typeOrAnyOrEmpty(tsb(unq(lexv(s.lastDirectiveParameters[k].file.content, s.lastDirectiveParameters[k].begin, s.lastDirectiveParameters[k].end)))))
+//@   loop 1 invariant 0 - 1 <= rangeindex && rangeindex <= rangelen - 1 && rangelen == len(s.lastDirectiveParameters)
+//@   loop 1 invariant forall k :: 0 <= k && k <= rangeindex && k < rangelen ==> !typeOrAnyOrEmpty(tsb(unq(lexv(s.lastDirectiveParameters[k].file.content, s.lastDirectiveParameters[k].begin, s.lastDirectiveParameters[k].end))))
+//@   loop 1 decreases rangelen - rangeindex
+//@   loop 1 frame nothing
+//@ pred typeOrAnyOrEmpty(v []byte) = beq(v, anyType) || beq(v, emptyType) || isUTN(v)
+//@ pred anyOrEmpty(v []byte) = beq(v, anyType) || beq(v, emptyType)
+
+//@ func (*Scanner).isDirectiveParameterHasAnyOrEmpty
+//@   tag C17 C05 C01
+//@   requires ParamsWF(s)
+//@   modifies nothing
+//@   ensures [C17] !ret <==> (exists k :: 0 <= k && k < len(s.lastDirectiveParameters) && anyOrEmpty(tsb(unq(lexv(s.lastDirectiveParameters[k].file.content, s.lastDirectiveParameters[k].begin, s.lastDirectiveParameters[k].end)))))
+//@   loop 1 invariant 0 - 1 <= rangeindex && rangeindex <= rangelen - 1 && rangelen == len(s.lastDirectiveParameters)
+//@   loop 1 invariant forall k :: 0 <= k && k <= rangeindex && k < rangelen ==> !anyOrEmpty(tsb(unq(lexv(s.lastDirectiveParameters[k].file.content, s.lastDirectiveParameters[k].begin, s.lastDirectiveParameters[k].end))))
+//@   loop 1 decreases rangelen - rangeindex
+//@   loop 1 frame nothing
